@@ -214,6 +214,24 @@ UNSUPPORTED = {
 }
 
 
+def match_shapes():
+    """every placement of guards over 1..3 value cases and an absent / plain / guarded default"""
+    guards = ['self.b.get() > self.k', 'self.c.get()', 'self.st == 1']
+    out = {}
+    for nv in (1, 2, 3):
+        for mask in range(1 << nv):
+            for dflt in ('none', 'plain', 'guarded'):
+                body = ['        match self.a.get():']
+                for i in range(nv):
+                    g = (' if %s' % guards[i]) if (mask >> i) & 1 else ''
+                    body += ['            case %d%s:' % (i + 1, g), '                self.r.prepare(%d)' % (10 + i), '                self.st = %d' % (i % 2)]
+                if dflt != 'none':
+                    g = ' if self.b.get() != 3' if dflt == 'guarded' else ''
+                    body += ['            case _%s:' % g, '                self.r.prepare(77)', '                self.cnt = 3']
+                out['match with %d value cases, guards on %s, default %s' % (nv, [i + 1 for i in range(nv) if (mask >> i) & 1] or 'none', dflt)] = body
+    return out
+
+
 def write_programs(tier, seed):
     """writes the generated classes and returns [(name, module, class, kind, meta)]"""
     quick = tier == 'quick'
@@ -233,6 +251,15 @@ def write_programs(tier, seed):
         with open(os.path.join(d, mod + '.py'), 'w') as f:
             f.write(src)
         progs.append(('generated #%d (%s, focus %s)' % (k, kind, g.focus), mod, kind, {'ins': g.ins, 'outs': g.outs, 'states': g.states, 'k': g.k}))
+    for j, (label, body) in enumerate(match_shapes().items()):
+        rnd = random.Random('m/%d' % j)
+        g = Gen(rnd, 'clock')
+        g.ins, g.outs = [('a', 4), ('b', 8), ('c', 1)], [('r', 8), ('s', 1)]
+        g.states = [('st', 1), ('cnt', 2)]
+        mod = 'm%03d' % j
+        with open(os.path.join(d, mod + '.py'), 'w') as f:
+            f.write(g.wrap('P', body))
+        progs.append(('directed: %s' % label, mod, 'clock', {'ins': g.ins, 'outs': g.outs, 'states': g.states, 'k': 3}))
     for j, (label, body) in enumerate(UNSUPPORTED.items()):
         rnd = random.Random('u/%d' % j)
         g = Gen(rnd, 'clock')
@@ -520,8 +547,8 @@ def main(argv=None):
             technique='SMT equivalence checking (z3 QF_BV): transpiled always-block module (E2) versus symbolic execution of the real Python clock()/propagate() from a symbolic state; initial values compared; one inductive step covers all input sequences',
             assumptions=['value domain: every intermediate Python value (inputs, constants and results alike) is >= 0 and < 2**31 (a Verilog integer is a signed 32-bit variable, so arithmetic between integers is signed), and no + - * << of the emitted text wraps at the width IEEE 1364 gives that expression on the executed path (e.g. a 1-bit plus a 4-bit port inside an if condition is a 4-bit sum)', 'divisors non-zero',
                          'text that does not parse/elaborate is a C03 matter (a downstream tool refuses it, so it is not silent) and is listed as inconclusive here'],
-            bounds={'programs': 'library behavioural blocks + %d grammar-generated programs (if/elif/else, match/case, ternary, and/or/not, comparisons, + - * // %% & | ^ ~ << >>, locals, state, constants) + %d single-construct refusal probes'
-                    % (150 if args.tier == 'quick' else 1500, len(UNSUPPORTED)), 'widths': '1,4,8,32'},
+            bounds={'programs': 'library behavioural blocks + %d grammar-generated programs (if/elif/else, match/case, ternary, and/or/not, comparisons, + - * // %% & | ^ ~ << >>, locals, state, constants) + %d directed match/case shapes (every guard placement over 1..3 value cases, default absent/plain/guarded) + %d single-construct refusal probes'
+                    % (150 if args.tier == 'quick' else 1500, len(match_shapes()), len(UNSUPPORTED)), 'widths': '1,4,8,32'},
             trusted_base=['z3', 'symx', 'vlog front end'])
     finally:
         shutil.rmtree(d, ignore_errors=True)
